@@ -38,4 +38,13 @@ HARNESSES = [
                                "--replace-calls", "create_node_and_repack_data:stub_create_node"],
          fp={"next": "env_next", "read_link": "env_read_link", "*": "env_never"},
          cases=[dict(id="one_entry", tier="quick")]),
+    dict(name="sparse", file="sparse.c", label="bounded(sparse map entries <= 3)", defines=CT, timeout=900, unwind=6,
+         fp={"get_buffered_data": "env_get_buffered_data", "advance_buffer": "env_advance_buffer",
+             "destroy": "it_destroy", "*": "env_never"},
+         cases=[dict(id="region_n%d" % n, defines={"PART": 0, "NSPARSE": n, "__NO_CTYPE": None},
+                     tier="quick") for n in (0, 1, 2, 3)] +
+               [dict(id="accounting_n%d" % n, defines={"PART": 1, "NSPARSE": n, "__NO_CTYPE": None},
+                     tier="quick") for n in (0, 1, 2)] +
+               [dict(id="accounting_n3", defines={"PART": 1, "NSPARSE": 3, "__NO_CTYPE": None},
+                     tier="thorough")]),
 ]
